@@ -2,12 +2,13 @@
 import itertools
 import json
 
-from ..core import Result, out_bytes
+from ..core import Result, out_bytes, file_crosscheck
+import random
 from .. import gen, model
 from ..val import veq, clone, strings_of, walk
 
 ID = 'C11'
-NEED_BINS = False
+NEED_BINS = True
 SIZES = {'quick': 6000, 'thorough': 1500000}
 REQUIRED_EVENTS = ['outputs_agreed']
 RULE = ('fixed part: every ordered tree shape with up to 4 (thorough: 5) containers x every assignment map/list x every assignment of '
@@ -214,6 +215,9 @@ def check_case(ctx, case):
     if seq_ != sorted(seq_):
         return res.violate('order', 'outputs do not follow document order', docs=docs, got=got)
     res.ev('outputs_agreed', len(got))
+    if case.get('i', 0) % 15 == 0:
+        if not file_crosscheck(ctx, res, docs, True, b0, {'docs': docs}, random.Random(case.get('i', 0))):
+            return res
     if len(got) > 1:
         res.labels.add('multi-output')
     if not got:
